@@ -106,13 +106,18 @@ func main() {
 					continue
 				}
 				key := p.name + "." + funcKey(fd)
-				if skip[key] {
+				// default: leave the listed functions alone; with MUT_ONLY_LISTED: mutate only the listed ones
+				if onlyListed := os.Getenv("MUT_ONLY_LISTED") != ""; skip[key] != onlyListed {
 					continue
 				}
 				sites := countSites(fd)
 				limit := sites
-				if limit > 14 {
-					limit = 14
+				maxPer := 14
+				if v := os.Getenv("MUT_LIMIT"); v != "" {
+					fmt.Sscanf(v, "%d", &maxPer)
+				}
+				if limit > maxPer {
+					limit = maxPer
 				}
 				for k := 0; k < limit; k++ {
 					site := k * sites / limit
